@@ -68,6 +68,9 @@ static void setup(void)
     add_seed_str(T_JSGF, "#JSGF V1.0;\ngrammar g;\npublic <a> = go [ forward | backward ] ( ten | two )* meters+ {tag} ;\n");
     add_seed_str(T_JSGF, "#JSGF V1.0 UTF-8 en;\ngrammar rec;\npublic <s> = /0.3/ go <t> | /0.7/ stop;\n<t> = forward <s> | <NULL>;\n");
     add_seed_str(T_JSGF, "#JSGF V1.0;\ngrammar w;\npublic <a> = go /5/ (forward);\n");
+    /* user rules named like the names the parser invents for groups, optionals and repetitions (<gNNNNN>, N = number of rules so far) */
+    add_seed_str(T_JSGF, "#JSGF V1.0;\ngrammar g;\n<g00001> = go;\npublic <top> = ( forward | backward ) [ ten ] meters* <g00001>;\n");
+    add_seed_str(T_JSGF, "#JSGF V1.0;\ngrammar g;\n<g00000> = go;\n<g00002> = ten;\n<g00003> = two;\npublic <top> = <g00000> ( forward | <g00002> ) [ <g00003> ] meters+;\n");
     add_seed_str(T_JSGF, "#JSGF V1.0;\ngrammar q;\nimport <other.rule>;\npublic <a> = \"go forward\" <other.rule> // c\n /* c2 */ ;\n");
     add_seed_file(T_FSG, vh_path("%s/tests/data/goforward.fsg", vh_repo), 1 << 20);
     add_seed_file(T_FSG, vh_path("%s/tests/data/goforward2.fsg", vh_repo), 1 << 20);
